@@ -192,6 +192,8 @@ def run(ctx):
                 st["deterministic_combos"] += 1
             mcases.append((3, [r["grammar"], c["table"], start]))
             meta.append(("struct", r, c, None))
+            mcases.append((10, c["table"]))
+            meta.append(("det", r, c, None))
             if "ann" in c:
                 ann, ftab, ntab = c["ann"]
                 mcases.append((8, [r["grammar"], c["table"], ann, ftab, ntab, r["stop"]]))
@@ -226,6 +228,11 @@ def run(ctx):
             if o != 1:
                 ctx.violation("table_struct fails on the impl's table (automaton structure broken)",
                               rep, no_input=True, key="table_struct")
+            continue
+        if kind == "det":
+            if (o == 1) != bool(c["deterministic"]):
+                ctx.violation("det_table (extracted) disagrees with the harness on determinism of the table",
+                              rep, no_input=True, key="det")
             continue
         if kind == "complete":
             st["tables_validated_complete"] = st.get("tables_validated_complete", 0) + 1
